@@ -26,6 +26,7 @@ from ..world import World, run_world
 
 ID = 'C08'
 LEVEL = 'exploration'
+QUICK_SCALE = 4      # the quick tier was enlarged by this factor after MIN_OBS['quick'] was measured
 RULE = (
     "One history = one simulated world: real uploader 'up' with 1-3 shared directories (sibling and nested layouts; the "
     "39 assignments of everyone/friends/users to 1..3 directories are enumerated round-robin over the cases), three "
@@ -82,7 +83,7 @@ MIN_OBS = {
                  'judgements_on_moved_files': 5600},
 }
 SHARD_TIMEOUT = {'quick': 600, 'thorough': 5400}
-SIZES = {'quick': 300, 'thorough': 12000}
+SIZES = {'quick': 1200, 'thorough': 12000}
 WHAT_FAILS = {
     'search:locked-file-in-normal-results': 'a search reply lists a file among the downloadable results for a user who is not entitled to it',
     'search:excluded-phrase-not-applied': 'a search reply contains a file whose path contains a server-excluded phrase',
